@@ -162,7 +162,7 @@ pub fn verif_parse_base_change<T: VecValue + Bytes>(
     })?;
     Ok((
         d.prev_stamp,
-        d.prev_stored_len,
+        d.truncated_start + d.truncated_values.len(),
         d.truncated_start,
         d.truncated_values,
         d.prev_pushed,
